@@ -403,6 +403,10 @@ def _annotate_closures(body: str, unit: Unit, log: list) -> str:
 
 def _annotate_loops(body: str, unit: Unit, log: list) -> str:
     if not unit.loops:
+        # a loop the store has no contract for (the body was restructured: an iterator chain became a loop) cannot be verified
+        n_loops = sum(1 for t in tokenize(body) if t.kind == "ident" and t.text in ("while", "loop", "for"))
+        if n_loops:
+            raise AnchorLost(f"{unit.name}: {n_loops} loop(s) in the body, no loop contract in the store")
         return body
     for k in sorted(unit.loops, reverse=True):
         toks = tokenize(body)
